@@ -16,6 +16,8 @@ Oracle clauses (evaluated on the implementation's observations, no model involve
                   `agent.cell` are cells of it, listed agents are registered in its model), the mirror holds (an agent is
                   listed exactly once, by the cell it points to, and by no other), capacities are respected
   space-empty     the `empty` property layer of a grid shows exactly the cells that list no agent (S21: it stopped tracking)
+  space-generator the space, its model and every cell use one generator object, the space's own (a copy: its own copy of it, in
+                  the same state)
   space-detached  an operation addressed to another family (a space and what was created in it / one copy), or a rejected
                   operation, never changes what a space shows
 """
@@ -133,6 +135,7 @@ class OccImpl:
                 return f"err Cells {len(cells)}"
             s = self.next
             self.spaces[s] = (space, model, coords_of(spec, n))
+            self.name[id(space.random)] = s     # the generator belongs to the pair space/model
             for i, c in enumerate(cells):
                 self.cells[s + 1 + i] = c
                 self.owner[s + 1 + i] = s
@@ -222,8 +225,12 @@ class OccImpl:
                 self.agents[n + B] = a2
                 self.owner[n + B] = s + B
                 self.name[id(a2)] = n + B
-        if space2.random is space.random:
+        if space2.random is space.random or id(space2.random) in self.name:
             problems.append("generator-shared")
+        else:
+            self.name[id(space2.random)] = s + B
+            if space2.random.getstate() != space.random.getstate():
+                problems.append("generator-state")
         self.spaces[s + B] = (space2, model2, coords)
         self.next = B + B
         return f"ok {s + B} " + ("fresh" if not problems else "shared:" + ",".join(sorted(set(problems))))
@@ -244,7 +251,8 @@ class OccImpl:
             empt = [self.cname(c) for c in cells if bool(data[c.coordinate])]
         else:
             empt = [self.cname(c) for c in cells if c.is_empty]
-        return "ok " + " ".join(parts) + " | " + " ".join(ags) + " | " + " ".join(empt)
+        gens = sorted({self.cname(g) for g in [space.random, model.random] + [c.random for c in cells]})
+        return "ok " + " ".join(parts) + " | " + " ".join(ags) + " | " + " ".join(empt) + " | " + " ".join(gens)
 
 
 def run_impl(sc):
@@ -266,7 +274,7 @@ def parse_look(o):
     """-> (cells [(name, idx, cap, listed, conns)], agents [(name, uid, cell)], empties [name]) with names as strings"""
     body = o[3:] if o.startswith("ok ") else ""
     p = body.split(" | ") if body else ["", "", ""]
-    p = (p + ["", "", ""])[:3]
+    p = (p + ["", "", ""])[:3]   # a fourth part (generators) is read by look_problems
     cells = []
     for t in p[0].split():
         f = t.split(":")
@@ -275,8 +283,8 @@ def parse_look(o):
     return cells, agents, p[2].split()
 
 
-def look_problems(o):
-    """the closure / mirror / capacity / empty-layer clauses on one read"""
+def look_problems(o, space=None):
+    """the closure / mirror / capacity / empty-layer / generator clauses on one read"""
     bad = []
     cells, agents, empt = parse_look(o)
     if "?" in o:
@@ -303,6 +311,10 @@ def look_problems(o):
             bad.append(("space-closure", f"agent {a} points to {c}, which is not a cell of this space"))
         elif at[a] != want:
             bad.append(("space-closure", f"agent {a} points to {c} and is listed by {at[a]}"))
+    gens = (o[3:].split(" | ") + [""] * 4)[3].split() if o.startswith("ok ") else []
+    if space is not None and gens != [str(space)]:
+        bad.append(("space-generator", f"the space, its model and its cells use the generator(s) {gens}; a space owns one generator ({space}) and "
+                    "hands it to its cells ('-': none, '?': an unknown object)"))
     if sorted(empt) != sorted(c[0] for c in cells if not c[3]):
         bad.append(("space-empty", f"the empty layer shows {empt}, the cells without agents are {[c[0] for c in cells if not c[3]]}"))
     return bad
@@ -336,7 +348,7 @@ def oracle(sc, obs):
             s = int(ws[1])
             if not o.startswith("ok"):
                 continue
-            for clause, msg in look_problems(o):
+            for clause, msg in look_problems(o, s):
                 bad.append(f"{clause}: `{l}` (line {i}): {msg}")
             if s in last and last[s] != o and all(f is None or f != fam.get(s) for f in since.get(s, [])):
                 bad.append(f"space-detached: space {s} showed {last[s]!r} and, after operations on other objects / rejected "
@@ -449,6 +461,8 @@ def generate_one(R, tier):
             ghost = R.choice([sd["s"], nxt + 1] + cells[:1])    # not an agent
             what = R.choice(["set", "unset", "remove"])
             lines.append(f"set {ghost} {R.choice(cells)}" if what == "set" else f"{what} {ghost}")
+        elif j < 0.80:
+            lines.append(f"agent {R.choice(cells + [nxt + 2])}")     # not a space
         else:
             new_agent(sd)
         looks()
